@@ -101,12 +101,15 @@ Val(S, ty, var, depth) ==
     [] k \in {"list", "set"} ->
          LET et == ElemTy(S, ty)
              n == IF var = 0 \/ depth >= MaxValDepth THEN 0 ELSE IF var = 1 THEN 2 ELSE 1
-             es == [j \in 1..n |-> Val(S, et, IF j = 1 THEN 1 ELSE 2, depth + 1)]
+             es0 == [j \in 1..n |-> Val(S, et, IF j = 1 THEN 1 ELSE 2, depth + 1)]
+             \* a set never holds the same element twice (elements coincide when the depth bound empties them)
+             es == IF k = "set" /\ n = 2 /\ es0[1] = es0[2] THEN <<es0[1]>> ELSE es0
          IN [k |-> k, et |-> WT(S, et), es |-> es]
     [] k = "map" ->
          LET n == IF var = 0 \/ depth >= MaxValDepth THEN 0 ELSE IF var = 1 THEN 2 ELSE 1
-             kvs == [j \in 1..n |-> <<Val(S, KeyTy(S, ty), IF j = 1 THEN 1 ELSE 2, depth + 1),
-                                      Val(S, ValTy(S, ty), IF j = 1 THEN 2 ELSE 1, depth + 1)>>]
+             kvs0 == [j \in 1..n |-> <<Val(S, KeyTy(S, ty), IF j = 1 THEN 1 ELSE 2, depth + 1),
+                                       Val(S, ValTy(S, ty), IF j = 1 THEN 2 ELSE 1, depth + 1)>>]
+             kvs == IF n = 2 /\ kvs0[1][1] = kvs0[2][1] THEN <<kvs0[1]>> ELSE kvs0      \* keys are distinct
          IN Map(WT(S, KeyTy(S, ty)), WT(S, ValTy(S, ty)), kvs)
     [] k \in {"struct", "exception"} -> Struct(FieldVals(S, DefOfTy(S, ty).fields, 1, var, depth))
     [] k = "union" ->
